@@ -5,7 +5,7 @@
 (* replays every generated record of these actions a further time on a copy of the static context (VH_STATIC_CTX=1);   *)
 (* a call that needs the generator tables, or fires the illegal-argument callback there, disagrees with `out`.          *)
 StaticEvents ==
-  { "EcdsaVerify", "EcdsaRecover", "EcdsaNormalize", "SchnorrVerify", "SchnorrNonceFn",                         \* C01, C02
+  { "EcdsaVerify", "EcdsaRecover", "EcdsaNormalize", "EcdsaNonceFn", "SchnorrVerify", "SchnorrNonceFn",                         \* C01, C02
     "CompactParse", "DerParse", "DerSerialize", "PubkeyParse", "PubkeySerialize", "RecCompactParse", "XonlyParse", \* C03
     "HsortInts", "PubkeyCmp", "PubkeyCombine", "PubkeySort", "SeckeyRaw", "XonlyTweakCheck",                       \* C04
     "CommitParse", "GenH", "GenParse", "PedBlindGenSum", "PedBlindSum", "PedSvdw", "PedTally",                      \* C08
